@@ -1,8 +1,12 @@
 """C19 — document transforms visit each target once and leave everything else alone."""
 import common
+import contextlib
 import io
 import json
+import os
+import pathlib
 import random
+import shutil
 
 import apicheck as A
 import cases as C
@@ -164,15 +168,339 @@ def conv_options(rng, g, kind, spec):
     return opts
 
 
-def real_convert(data, opts, transform=None):
-    """mammoth.convert_to_html / convert_to_markdown(fileobj, transform_document=..., **options) -> {value, messages} | {err}"""
+# ---------------------------------------------------------------------------
+# How the document reaches the library.  Every public entry point takes "a file-like object"; what people pass is an
+# io.BytesIO, a file opened in binary mode, and - because zipfile accepts it - a path as str or pathlib.Path.  The statement
+# (f called once per target, the returned element in place) does not depend on which; neither does any other result.
+# ---------------------------------------------------------------------------
+
+SOURCES = ["bytesio", "file", "str", "pathlib"]
+SOURCE_NAMES = ["doc.docx", "doc.docx", "document", "my doc.docx", "ünï.docx", "a.b.docx", ".hidden"]
+
+
+def source_dir():
+    d = os.path.join(common.WORK, "c19_%d" % os.getpid())
+    os.makedirs(d, exist_ok=True)
+    return d
+
+
+@contextlib.contextmanager
+def as_source(data, source):
+    """source: None | "bytesio" | "file" | "str" | "pathlib", optionally followed by ":<file name>" """
+    shape, _, name = (source or "bytesio").partition(":")
+    if shape == "bytesio":
+        yield io.BytesIO(data)
+        return
+    path = os.path.join(source_dir(), name or "doc.docx")
+    with open(path, "wb") as f:
+        f.write(data)
+    if shape == "file":
+        with open(path, "rb") as f:
+            yield f
+    elif shape == "str":
+        yield path
+    else:
+        yield pathlib.Path(path)
+
+
+def pick_source(xrng):
+    shape = xrng.choice(["bytesio", "bytesio", "file", "str", "str", "pathlib", "pathlib"])
+    return shape if shape == "bytesio" else "%s:%s" % (shape, xrng.choice(SOURCE_NAMES))
+
+
+def entry_call(mammoth, which, src, kw, transform):
+    """one public entry point on one source -> comparable outcome"""
+    try:
+        with D.time_limit():
+            if which == "raw":
+                r = mammoth.extract_raw_text(src)
+            elif which == "embedded":
+                return {"value": mammoth.read_embedded_style_map(src)}
+            elif which == "html":
+                r = mammoth.convert_to_html(src, transform_document=transform, **kw)
+            elif which == "markdown":
+                r = mammoth.convert_to_markdown(src, transform_document=transform, **kw)
+            else:
+                r = mammoth.convert(src, transform_document=transform, output_format={"convert": None, "convert-html": "html", "convert-markdown": "markdown"}[which], **kw)
+            return {"value": r.value, "messages": A.norm_messages([m.message for m in r.messages])}
+    except D.DidNotTerminate:
+        return {"err": "DidNotTerminate"}
+    except Exception as e:  # noqa
+        return {"err": D.err_kind(e), "err_text": repr(e)[:200]}
+
+
+def source_sweep(out, xrng, data, parts, copts, kind, base, case):
+    """some entry points x all four ways of handing the document over: value, messages and the number of calls of f must be
+    those of the io.BytesIO call"""
+    import mammoth
+    opts = {k: v for k, v in copts.items() if k != "format"}
+    emb_text = None
+    if xrng.random() < 0.5:
+        # a document that carries an embedded style map (read through the same argument, by another code path)
+        emb = emb_text = xrng.choice(["p => p.emb:fresh", "r => span.emb", "p[style-name='heading 1'] => h2.emb:fresh\ntable => table.emb"])
+        data = D.build_docx([p for p in parts if p["name"] != "mammoth/style-map"] + [{"name": "mammoth/style-map", "hex": emb.encode("utf-8").hex()}])
+        if xrng.random() < 0.25:
+            opts["includeEmbedded"] = False
+    name = xrng.choice(SOURCE_NAMES)
+    for which in xrng.sample(["html", "html", "markdown", "convert", "convert-html", "convert-markdown", "raw", "embedded"], 2):
+        ref = None
+        for shape in SOURCES:
+            calls = [0]
+
+            def f(e, calls=calls):
+                calls[0] += 1
+                return base(e)
+            source = shape if shape == "bytesio" else "%s:%s" % (shape, name)
+            with as_source(data, source) as src:
+                r = entry_call(mammoth, which, src, D.real_options(opts, []), entry(kind, f))
+            r["calls"] = calls[0]
+            r.pop("err_text", None)
+            out.count()
+            if ref is None:
+                ref = r
+            elif r != ref:
+                what = next(k for k in ("err", "calls", "value", "messages") if r.get(k) != ref.get(k))
+                out.violation("mammoth.%s gives another result (%s) for the document passed as %s than for the same bytes in an io.BytesIO (transform_document=transforms.%s, f called %d times / %d times)"
+                              % ({"raw": "extract_raw_text", "embedded": "read_embedded_style_map", "html": "convert_to_html", "markdown": "convert_to_markdown"}.get(which, "convert"),
+                                 what, {"file": "an open binary file", "str": "a path (str)", "pathlib": "a pathlib.Path"}[shape], entry_name(kind), r["calls"], ref["calls"]),
+                              dict(case, options=opts, source=source, entry_point=which, embedded_style_map=emb_text, docx_hex=data.hex() if len(data) < 40000 else None),
+                              expected={k: ref.get(k) for k in ("value", "messages", "err", "calls")}, actual={k: r.get(k) for k in ("value", "messages", "err", "calls")})
+                return False
+    return True
+
+
+# ---------------------------------------------------------------------------
+# Depth.  "however deeply it is nested": a chain of tables nested in each other as deep as the library converts at all at the
+# default recursion limit (read by the real reader, part of the ordinary cases), and trees built with the library's own
+# constructors far deeper than that (transform only).
+# ---------------------------------------------------------------------------
+
+DEEP_TABLES = [8, 20, 30, 33, 34, 35, 37, 40]
+
+
+def deep_chain(g, xrng, depth):
+    """`depth` tables nested in each other; every level has content of its own before and / or after the nested table"""
+    def para(t):
+        return el("w:p", [], [el("w:r", [], [el("w:t", [], [t])])])
+    inner = g.paragraph(2, allow_deleted=False) if xrng.random() < 0.5 else para("core")
+    for i in range(depth):
+        before = [para("b%d" % i)] if xrng.random() < 0.3 else []
+        after = [para("a%d" % i)]       # a cell ends with a paragraph
+        cells = [el("w:tc", [], before + [inner] + after)]
+        if xrng.random() < 0.15:
+            cells.insert(xrng.randint(0, 1), el("w:tc", [], [para("s%d" % i)]))
+        inner = el("w:tbl", [], [el("w:tr", [], cells)])
+    return inner
+
+
+def entry_name(kind):
+    return "element_of_type(Table, f)" if kind == "table" else "%s(f)" % kind
+
+
+def deepest_target(e, T):
+    """(number of containers around it, 1-based post-order number) of the most deeply nested target below e"""
+    best, count = [(-1, 0)], [0]
+
+    def walk(x, depth):
+        for c in (getattr(x, "children", None) or []):
+            walk(c, depth + 1)
+        if isinstance(x, T):
+            count[0] += 1
+            if depth > best[0][0]:
+                best[0] = (depth, count[0])
+    walk(e, 0)
+    return best[0][1]
+
+
+def own_postorder(e, T, acc):
+    """the targets below (and including) e, children before the elements that contain them - written here, not the library's walk"""
+    for c in (getattr(e, "children", None) or []):
+        own_postorder(c, T, acc)
+    if isinstance(e, T):
+        acc.append(e)
+    return acc
+
+
+def deep_trees(out, xrng, seed, n):
+    """trees of 60 .. 160 containers in each other (tables / rows / cells, hyperlinks, paragraphs and runs holding them), every
+    target labelled through its style id: the callback must receive the labels in post-order, each once, and the labels
+    must be where they were afterwards"""
+    from mammoth import documents
+    TY = {"paragraph": documents.Paragraph, "run": documents.Run, "table": documents.Table}
+    for i in range(n):
+        depth = xrng.choice([60, 95, 99, 100, 101, 104, 130, 160])
+        label = [0]
+
+        def lab():
+            label[0] += 1
+            return "L%d" % label[0]
+
+        def leaf():
+            return documents.paragraph([documents.run([documents.Text("x")], style_id=lab())], style_id=lab())
+        node, d, shape = leaf(), 1, []
+        while d < depth:
+            how = xrng.choice(["table", "table", "link", "para"])
+            side = [leaf() for _ in range(xrng.choice([0, 0, 1, 2]))]
+            if how == "table":
+                node = documents.table([documents.table_row([documents.table_cell(side[:1] + [node] + side[1:])])], style_id=lab())
+                d += 3
+            elif how == "link":
+                node = documents.hyperlink(side[:1] + [node], href="http://x.example/%d" % d)
+                d += 1
+            else:
+                node = documents.paragraph([documents.run([node] + side, style_id=lab())], style_id=lab())
+                d += 2
+            shape.append(how[0])
+        doc = documents.document([leaf(), node, leaf()])
+        for kind in ("paragraph", "run", "table"):
+            want = [e.style_id for e in own_postorder(doc, TY[kind], [])]
+            got = []
+
+            def f(e, got=got):
+                got.append(e.style_id)
+                return e.copy(style_name="seen")
+            case = {"kind": "deep-tree", "entry": kind, "containers": d, "nesting": "".join(shape), "seed": seed, "tree": i,
+                    "note": "built with mammoth.documents constructors: t = table > row > cell, l = hyperlink, p = paragraph > run, innermost first"}
+            out.count(key="deep-%d-%d-%s" % (seed, i, kind), nontrivial=len(want) >= 2)
+            try:
+                doc2 = entry(kind, f)(doc)
+            except Exception as e:  # noqa
+                out.violation("in a tree of %d nested containers the transform raised %s" % (d, type(e).__name__), case)
+                return
+            if got != want:
+                k = next((j for j, (a, b) in enumerate(zip(got, want)) if a != b), min(len(got), len(want)))
+                out.violation("in a tree of %d nested containers the callback was called for %d of the %d %ss (the first one missed or out of order is number %d in post-order)"
+                              % (d, len(got), len(want), kind, k + 1), case, expected=want[:k + 3][-6:], actual=got[:k + 3][-6:])
+                return
+            after = own_postorder(doc2, TY[kind], [])
+            if [e.style_id for e in after] != want or any(e.style_name != "seen" for e in after):
+                out.violation("in a tree of %d nested containers the elements returned by the callback are not all in place afterwards" % d, case)
+                return
+
+
+# ---------------------------------------------------------------------------
+# Histories.  transforms.paragraph(f) is an object the caller keeps (the README builds it once, at module level) and uses for
+# every conversion; f is the caller's code and may raise, and the caller may catch that and go on with the next document.
+# Whatever was transformed before, and however those calls ended, the next call visits every target once.
+# ---------------------------------------------------------------------------
+
+class Refused(Exception):
+    """raised by the callback of a history on the element it was told to refuse"""
+
+
+def history_callback(fname, state):
+    basef = None if fname == "number" else family(fname)
+
+    def f(e):
+        state["calls"] += 1
+        if state["calls"] == state["refuse"]:
+            raise Refused("element %d" % state["calls"])
+        if basef is None:
+            return e.copy(style_id="N%d" % state["calls"])     # a callback with a memory: numbers the targets in the order it sees them
+        return basef(e)
+    return f
+
+
+def apply_step(mammoth, tf, state, member, refuse, surface):
+    """one use of the transformer `tf` (whose callback reads `state`) -> comparable outcome"""
+    state["calls"], state["refuse"] = 0, refuse
+    try:
+        if surface == "convert":
+            r = mammoth.convert_to_html(io.BytesIO(member["data"]), transform_document=tf)
+            res = [r.value, A.norm_messages([m.message for m in r.messages])]
+        else:
+            res = D.doc_to_json(tf(member["doc"]))
+    except Refused:
+        return {"raised": "Refused", "calls": state["calls"]}
+    except Exception as e:  # noqa
+        return {"raised": D.err_kind(e), "calls": state["calls"]}
+    return {"calls": state["calls"], "result": res}
+
+
+def run_histories(out, xrng, seed, pool, n):
+    import mammoth
+    failures = 0
+    lengths = out.extra.setdefault("c19_history_steps", [])
+    for h in range(n):
+        kind = xrng.choice(["paragraph", "paragraph", "run", "run", "table"])
+        cands = [m for m in pool if m["ntargets"][kind] >= 1]
+        if not cands:
+            continue
+        members = xrng.sample(cands, min(len(cands), xrng.randint(1, 4)))
+        nested = [m for m in cands if m["ntables"] and not m["deep"]]
+        if nested and xrng.random() < 0.6:
+            members[0] = xrng.choice(nested)        # a document with targets inside tables
+        fname = xrng.choice(["id", "restyle", "number", "number", "dup", "nochildren"])
+        if fname == "dup" and any(m["deep"] for m in members):
+            fname = "restyle"
+        shared_state, fresh_state = {}, {}
+        shared = entry(kind, history_callback(fname, shared_state))      # built once, used for every step
+        nsteps = xrng.choice([2, 4, 8, 20, 60, 150])
+        p_refuse = xrng.choice([0.0, 0.3, 0.6, 0.85])
+        p_deepest = xrng.choice([0.0, 0.5, 0.9])
+        steps = []
+        lengths.append(nsteps)
+        for s in range(nsteps):
+            mi = xrng.randrange(len(members))
+            member = members[mi]
+            nt = member["ntargets"][kind]
+            refuse = xrng.randint(1, nt) if xrng.random() < p_refuse else None
+            if refuse is not None and xrng.random() < p_deepest:
+                refuse = member["deepest"][kind]      # the most deeply nested target of the document
+            surface = "convert" if xrng.random() < 0.04 else "call"
+            steps.append([mi, refuse, surface])
+            got = apply_step(mammoth, shared, shared_state, member, refuse, surface)
+            out.count(key="hist-%d-%d-%d" % (seed, h, s), nontrivial=s > 0)
+            probs = []
+            if refuse is not None:
+                if got.get("raised") != "Refused" or got["calls"] != refuse:
+                    probs.append("the callback raises on its call number %d of this step (the caller catches that); the step ended with %s after %d calls"
+                                 % (refuse, got.get("raised", "a result"), got["calls"]))
+            else:
+                if "raised" in got:
+                    probs.append("the step raised %s" % got["raised"])
+                elif got["calls"] != nt:
+                    probs.append("the callback was called %d times, the document has %d %ss" % (got["calls"], nt, kind))
+                else:
+                    # what a transformer built for this one call returns
+                    want = apply_step(mammoth, entry(kind, history_callback(fname, fresh_state)), fresh_state, member, None, surface)
+                    if got != want:
+                        probs.append("the result differs from that of a newly built transforms.%s on the same document" % entry_name(kind))
+                    elif fname == "number" and surface == "call":
+                        ids = json_postorder(got["result"]["children"], KIND_K[kind], [])
+                        if ids != ["N%d" % (k + 1) for k in range(nt)]:
+                            probs.append("the elements returned by the callback (numbered in call order) are not in post-order in the result: %r" % ids[:12])
+            if probs:
+                failures += 1
+                out.violation("step %d of a history of uses of ONE transforms.%s object (%d earlier steps, %d of them ended by the callback raising): %s"
+                              % (s + 1, entry_name(kind), s, sum(1 for _m, r, _s in steps[:-1] if r is not None), "; ".join(probs)),
+                              {"kind": "transform-history", "entry": kind, "f": fname, "documents": [m["parts"] for m in members],
+                               "steps": steps, "step_format": "[index into documents, number of the callback call that raises (null: none), 'call' = t(document) / 'convert' = convert_to_html(fileobj, transform_document=t)]"})
+                break
+        if failures >= 3:
+            break
+
+
+def json_postorder(nodes, k, acc):
+    """style ids of the elements of kind k in a forest of elem_to_json values, children first"""
+    for n in nodes:
+        json_postorder(n.get("ch", []), k, acc)
+        if n.get("k") == k:
+            acc.append(n.get("sid"))
+    return acc
+
+
+def real_convert(data, opts, transform=None, source=None):
+    """mammoth.convert_to_html / convert_to_markdown(fileobj, transform_document=..., **options) -> {value, messages} | {err};
+    source: how the document is handed over (None = io.BytesIO; see as_source)"""
     import mammoth
     try:
         with D.time_limit():
             kw = D.real_options(opts, [])
             if transform is not None:
                 kw["transform_document"] = transform
-            r = (mammoth.convert_to_markdown if opts.get("format") == "markdown" else mammoth.convert_to_html)(io.BytesIO(data), **kw)
+            with as_source(data, source) as src:
+                r = (mammoth.convert_to_markdown if opts.get("format") == "markdown" else mammoth.convert_to_html)(src, **kw)
             return {"value": r.value, "messages": A.norm_messages([m.message for m in r.messages])}
     except D.DidNotTerminate:
         return {"err": "DidNotTerminate"}
@@ -191,8 +519,10 @@ def run(out, tier, seed, model_ok):
     from mammoth import documents, transforms
     from mammoth import docx as mdocx
     rng = random.Random(seed * 7919 + 19)
+    xrng = random.Random(seed * 7919 + 1919)     # sources, depth, histories: a stream of their own, the cases stay what they were
     n = common.deepen(500 if tier == "quick" else 6000)
     lines, meta, conv_lines = [], [], []
+    hist_pool, sweeps_ok = [], True
     for i in range(n):
         g = DocGen(seed * 1000003 + i, PROFILE)
         blocks = g.blocks(0, rng.randint(1, 4))
@@ -208,6 +538,10 @@ def run(out, tier, seed, model_ok):
                 blocks.insert(rng.randrange(len(blocks) + 1), g.table(0))
         if rng.random() < 0.5:
             share_styles(rng, g, blocks)
+        deep = xrng.random() < 0.04
+        if deep:
+            blocks.insert(xrng.randrange(len(blocks) + 1), deep_chain(g, xrng, xrng.choice(DEEP_TABLES)))
+            out.extra["c19_deep_chains"] = out.extra.get("c19_deep_chains", 0) + 1
         parts = g.package(blocks)
         data = D.build_docx(parts)
         try:
@@ -216,6 +550,8 @@ def run(out, tier, seed, model_ok):
             continue
         kind = "table" if want_table else rng.choice(["paragraph", "run"])
         fname = rng.choice(["id", "record", "restyle", "nochildren", "dup", "restylep", "restylep", "restylep"])
+        if deep and fname == "dup":
+            fname = "record"        # duplicating the children of every one of n nested tables makes 2^n of the innermost
         log = []
         spec = restyle_spec(rng, g, kind) if fname == "restylep" else None
         base = restyle_fn(spec) if spec is not None else family(fname)
@@ -236,9 +572,19 @@ def run(out, tier, seed, model_ok):
         # the conversion with the transform (what convert_to_html(fileobj, transform_document=...) returns), under options
         # whose style map tells the restyled elements from the others
         copts = conv_options(rng, g, kind, spec)
-        creal = real_convert(data, copts, entry(kind, base))
+        if deep:
+            # every element a style map wraps around a table is another level of HTML per nested table: the default map only, so
+            # that the chain stays within what the library converts at the default recursion limit
+            copts.pop("styleMap", None)
+        source = pick_source(xrng)
+        ccalls = [0]
+
+        def counted(e, base=base, ccalls=ccalls):
+            ccalls[0] += 1
+            return base(e)
+        creal = real_convert(data, copts, entry(kind, counted), source=source)
         meta.append(dict(parts=parts, kind=kind, f=fname, log=log, doc2=D.doc_to_json(doc2), desc=desc, dpar=dpar, drun=drun, doc=dj, data=data,
-                         restyle=spec, copts=copts, creal=creal))
+                         restyle=spec, copts=copts, creal=creal, source=source))
         # images are closures on the real side: make the JSON the codec accepts
         lines.append(dict({"op": "transform", "doc": fix_images(dj), "kind": kind, "f": fname}, **({"restyle": spec} if spec is not None else {})))
         tline = dict({"kind": kind, "f": fname}, **({"restyle": spec} if spec is not None else {}))
@@ -249,6 +595,18 @@ def run(out, tier, seed, model_ok):
         case = {"kind": "transform", "parts": parts, "entry": kind, "f": fname, "restyle": spec}
         if len(log) != len(targets):
             out.violation("the callback was called %d times, the document body has %d %ss" % (len(log), len(targets), kind), case)
+        if "err" not in creal and ccalls[0] != len(targets):
+            out.violation("convert_to_%s(%s, transform_document=transforms.%s) called f %d times, the document body has %d %ss"
+                          % (copts.get("format", "html"), source, entry_name(kind), ccalls[0], len(targets), kind),
+                          dict(case, options=copts, source=source))
+        if sweeps_ok and xrng.random() < 0.06:
+            sweeps_ok = source_sweep(out, xrng, data, parts, copts, kind, base, case)
+            out.extra["c19_source_sweeps"] = out.extra.get("c19_source_sweeps", 0) + 1
+        if len(hist_pool) < 80 and (len(targets) >= 2 or xrng.random() < 0.2):
+            from mammoth import documents as _d
+            hist_pool.append(dict(parts=parts, data=data, doc=doc, deep=deep, ntables=len(own_postorder(doc, _d.Table, [])),
+                                  deepest={"paragraph": deepest_target(doc, _d.Paragraph), "run": deepest_target(doc, _d.Run), "table": deepest_target(doc, _d.Table)}, ntargets={"paragraph": len(own_postorder(doc, _d.Paragraph, [])), "run": len(own_postorder(doc, _d.Run, [])),
+                                                                           "table": len(own_postorder(doc, _d.Table, []))}))
         if fname in ("id", "record"):
             if D.doc_to_json(doc2) != dj:
                 out.violation("an identity transform changed the document", case)
@@ -281,6 +639,9 @@ def run(out, tier, seed, model_ok):
         # every descendant exactly once: count nodes independently
         if len(desc) != count_nodes(dj["children"]):
             out.violation("get_descendants returned %d elements, the document body has %d" % (len(desc), count_nodes(dj["children"])), case)
+    deep_trees(out, xrng, seed, common.deepen(8 if tier == "quick" else 60))
+    run_histories(out, xrng, seed, hist_pool, common.deepen(24 if tier == "quick" else 300))
+    shutil.rmtree(source_dir(), ignore_errors=True)
     if model_ok and lines:
         for mt, m in zip(meta, run_driver(lines, tag="tf")):
             if "error" in m:
@@ -318,7 +679,7 @@ def run(out, tier, seed, model_ok):
                 changed[fam][1] += 1
             if same_result(r, m):
                 continue
-            case = {"kind": "transform", "parts": mt["parts"], "entry": mt["kind"], "f": mt["f"], "restyle": mt["restyle"], "options": mt["copts"]}
+            case = {"kind": "transform", "parts": mt["parts"], "entry": mt["kind"], "f": mt["f"], "restyle": mt["restyle"], "options": mt["copts"], "source": mt["source"]}
             rplain = real_convert(mt["data"], mt["copts"])
             mplain = run_driver([{k2: v for k2, v in conv_lines[k].items() if k2 != "transform"}], tag="tfplain")[0]
             if "error" in mplain or not same_result(rplain, mplain):
@@ -330,9 +691,9 @@ def run(out, tier, seed, model_ok):
                 continue
             exp = {k2: m.get(k2) for k2 in ("value", "messages", "err") if k2 in m}
             act = {k2: r.get(k2) for k2 in ("value", "messages", "err", "err_text") if k2 in r}
-            out.violation("convert_to_%s(fileobj, transform_document=transforms.%s(f)) is not the conversion of the document with the returned elements in "
+            out.violation("convert_to_%s(%s, transform_document=transforms.%s(f)) is not the conversion of the document with the returned elements in "
                           "place (f = %s; without the transform the conversion is as specified): expected %s, got %s"
-                          % (mt["copts"].get("format", "html"), mt["kind"] if mt["kind"] != "table" else "element_of_type(Table, f)",
+                          % (mt["copts"].get("format", "html"), "fileobj" if mt["source"] == "bytesio" else mt["source"], mt["kind"] if mt["kind"] != "table" else "element_of_type(Table, f)",
                              mt["f"] if mt["restyle"] is None else "restyle %s" % json.dumps(mt["restyle"]),
                              json.dumps(exp, ensure_ascii=False)[:500], json.dumps(act, ensure_ascii=False)[:500]), case, expected=exp, actual=act)
     out.rule = ("documents read by the real reader from generated packages (nested tables, hyperlinks, text boxes, paragraphs left inside runs, structurally equal siblings) x "
@@ -340,7 +701,12 @@ def run(out, tier, seed, model_ok):
                 "style name is -> new style name and/or style id, several elements sharing one style id], drop children, duplicate children) implemented on both sides; observation: the "
                 "call log (arguments in order), the transformed document, get_descendants and get_descendants_of_type, compared with the Lean transformM/descendants model; "
                 "convert_to_html/markdown(fileobj, transform_document=t, style maps by style name and id) compared with the Lean conversion of the Lean-transformed document; "
-                "independent counts of targets and nodes; identity transform leaves the conversion unchanged; non-trivial = at least two targets")
+                "independent counts of targets and nodes; identity transform leaves the conversion unchanged; non-trivial = at least two targets; "
+                "the document handed to convert_to_html/markdown as io.BytesIO / open file / str path / pathlib.Path (f counted), and convert_to_html / convert_to_markdown / convert / "
+                "extract_raw_text / read_embedded_style_map on all four for a sample; chains of up to 42 tables nested in each other among the ordinary cases, trees of 60-160 nested "
+                "containers built with the library's constructors (labels in post-order); histories of up to 120 uses of ONE transformer object over several documents, the callback "
+                "raising on a chosen call in some steps (caught by the caller), stateless and numbering callbacks, t(document) and convert_to_html(.., transform_document=t): every step "
+                "compared with a newly built transformer and with an own post-order count")
     if meta:
         out.sample({"entry": meta[0]["kind"], "f": meta[0]["f"], "calls": len(meta[0]["log"])})
 
